@@ -105,7 +105,16 @@ func (w *World) CG() *CallGraph {
 					continue
 				}
 				if *op == callVal {
-					if _, isClosure := (*op).(*ssa.MakeClosure); !isClosure {
+					// callee position: not a value use (closures are judged by their referrers below)
+					isArg := false
+					if c, ok := in.(ssa.CallInstruction); ok {
+						for _, a := range c.Common().Args {
+							if a == *op {
+								isArg = true
+							}
+						}
+					}
+					if !isArg {
 						continue
 					}
 				}
@@ -372,6 +381,40 @@ func (w *World) Reachable(roots ...*ssa.Function) map[*ssa.Function]bool {
 // ReachableSameGoroutine is Reachable without following go statements.
 func (w *World) ReachableSameGoroutine(roots ...*ssa.Function) map[*ssa.Function]bool {
 	return w.reachable(false, roots...)
+}
+
+// ReachableWithin is ReachableSameGoroutine restricted to functions accepted by keep
+// (calls leaving the kept set are not followed).
+func (w *World) ReachableWithin(keep func(*ssa.Function) bool, roots ...*ssa.Function) map[*ssa.Function]bool {
+	g := w.CG()
+	seen := map[*ssa.Function]bool{}
+	var work []*ssa.Function
+	for _, r := range roots {
+		if r != nil && !seen[r] && keep(r) {
+			seen[r] = true
+			work = append(work, r)
+		}
+	}
+	for len(work) > 0 {
+		f := work[len(work)-1]
+		work = work[:len(work)-1]
+		allInstrs(f, func(in ssa.Instruction) {
+			c, ok := in.(ssa.CallInstruction)
+			if !ok {
+				return
+			}
+			if _, isGo := in.(*ssa.Go); isGo {
+				return
+			}
+			for _, callee := range g.callees[c] {
+				if !seen[callee] && keep(callee) {
+					seen[callee] = true
+					work = append(work, callee)
+				}
+			}
+		})
+	}
+	return seen
 }
 
 func (w *World) reachable(followGo bool, roots ...*ssa.Function) map[*ssa.Function]bool {
